@@ -975,3 +975,76 @@ def protected_rule_flags():
     bad = [s for s in sites if not (s[0] == "pymarkdown/plugin_manager/rule_plugin.py" and s[1] in ("RulePlugin.__init__", "RulePlugin.set_configuration_map"))]
     return [{"name": "structural::C14::protected[rule flags]", "ok": bool(sites) and not bad, "info": protected_rule_flags.__doc__,
              "detail": f"store sites: {sites}; unexpected: {bad}"}]
+
+
+@check("C08")
+def modify_token_frames():
+    """`_modify_token` of every token class: the branch for field "f" is guarded by `field_name == "f" and isinstance(field_value, T)`,
+    stores the requested value into exactly the attribute that the property `f` of that class reads, calls only helpers that
+    write nothing but the derived extra_data string, and returns True; anything else falls through to `return False` or to the
+    base class.  So a fix request changes only the field it names (value-for-value) and an unknown field or ill-typed value
+    changes nothing.  One obligation per (class, field)."""
+    out = []
+    files = [(rel, full) for rel, full in py_files() if rel.startswith(("pymarkdown/tokens/", "pymarkdown/extensions/"))]
+    for rel, full in files:
+        tree = parse(full)
+        for cls in [n for n in tree.body if isinstance(n, ast.ClassDef)]:
+            fn = next((m for m in cls.body if isinstance(m, ast.FunctionDef) and m.name == "_modify_token"), None)
+            if fn is None:
+                continue
+            props = {}
+            for m in cls.body:
+                if isinstance(m, ast.FunctionDef) and any(isinstance(d, ast.Name) and d.id == "property" for d in m.decorator_list):
+                    rets = [s for s in m.body if isinstance(s, ast.Return)]
+                    if rets and isinstance(rets[-1].value, ast.Attribute) and isinstance(rets[-1].value.value, ast.Name) and rets[-1].value.value.id == "self":
+                        props[m.name] = rets[-1].value.attr
+            pure_helpers = set()
+            for m in cls.body:
+                if isinstance(m, ast.FunctionDef):
+                    stores = [a for a in ast.walk(m) if isinstance(a, ast.Attribute) and isinstance(a.ctx, (ast.Store, ast.Del))]
+                    if not stores:
+                        pure_helpers.add(m.name)
+            body = [s for s in fn.body if not (isinstance(s, ast.Expr) and isinstance(s.value, ast.Constant))]
+            last = body[-1] if body else None
+            tail_ok = isinstance(last, ast.Return) and (
+                (isinstance(last.value, ast.Constant) and last.value.value is False)
+                or (isinstance(last.value, ast.Call) and ast.unparse(last.value) == "super()._modify_token(field_name, field_value)"))
+            out.append({"name": f"structural::C08::modify_token[{cls.name}:fallthrough]", "ok": tail_ok and all(isinstance(s, ast.If) for s in body[:-1]),
+                        "info": "unknown field / ill-typed value: nothing is changed, result False or the base class decides",
+                        "detail": f"{rel}:{fn.lineno} last statement `{ast.unparse(last) if last else ''}`"})
+            for st in body[:-1]:
+                if not isinstance(st, ast.If):
+                    continue
+                conj = st.test.values if isinstance(st.test, ast.BoolOp) and isinstance(st.test.op, ast.And) else [st.test]
+                fld = next((c.comparators[0].value for c in conj if isinstance(c, ast.Compare) and isinstance(c.left, ast.Name) and c.left.id == "field_name"
+                            and len(c.ops) == 1 and isinstance(c.ops[0], ast.Eq) and isinstance(c.comparators[0], ast.Constant)), None)
+                typed = any(isinstance(c, ast.Call) and isinstance(c.func, ast.Name) and c.func.id == "isinstance" and isinstance(c.args[0], ast.Name)
+                            and c.args[0].id == "field_value" for c in conj)
+                problems = []
+                if fld is None or not typed or st.orelse:
+                    problems.append("guard is not `field_name == <literal> and isinstance(field_value, T)`")
+                stores = [a for s in st.body for a in ast.walk(s) if isinstance(a, ast.Attribute) and isinstance(a.ctx, (ast.Store, ast.Del))]
+                want = props.get(fld) or (f"__{fld}" if fld else None)     # no property of that name: the private attribute of the same name
+                first = st.body[0] if st.body else None
+                if not (isinstance(first, ast.Assign) and len(first.targets) == 1 and isinstance(first.targets[0], ast.Attribute)
+                        and isinstance(first.value, ast.Name) and first.value.id == "field_value" and want is not None and first.targets[0].attr == want):
+                    problems.append(f"first statement does not store field_value into self.{want} (the attribute property `{fld}` reads)")
+                if len(stores) != 1:
+                    problems.append(f"{len(stores)} attribute stores in the branch")
+                for s in st.body[1:-1]:
+                    calls = [c for c in ast.walk(s) if isinstance(c, ast.Call)]
+                    for c in calls:
+                        nm = c.func.attr if isinstance(c.func, ast.Attribute) else getattr(c.func, "id", "?")
+                        mangled_ok = nm in pure_helpers or nm in ("_set_extra_data", "super") or (nm.startswith("__") and nm in pure_helpers)
+                        if not mangled_ok:
+                            problems.append(f"calls {nm}, which stores attributes")
+                    if not isinstance(s, (ast.Expr, ast.Assign)) or (isinstance(s, ast.Assign) and not all(isinstance(t, ast.Name) for t in s.targets)):
+                        problems.append(f"unexpected statement `{ast.unparse(s)[:60]}`")
+                if not (st.body and isinstance(st.body[-1], ast.Return) and isinstance(st.body[-1].value, ast.Constant) and st.body[-1].value.value is True):
+                    problems.append("branch does not end with `return True`")
+                out.append({"name": f"structural::C08::modify_token[{cls.name}.{fld}]", "ok": not problems,
+                            "info": f"fixing `{fld}` stores the requested value into the attribute behind `{fld}` and touches nothing else but the derived extra_data",
+                            "detail": f"{rel}:{st.lineno} " + "; ".join(problems)})
+    if len(out) < 40:
+        out.append({"name": "structural::C08::modify_token[coverage]", "ok": False, "undecided": True, "info": "expected 15 classes", "detail": f"{len(out)} obligations"})
+    return out
